@@ -760,6 +760,8 @@ class Exec:
             return
         ordn = self.loop_ord[id(n)]
         spec = self.fv.contract.loops.get(ordn)
+        if spec is None and isinstance(it, ObjV) and it.role == "opaque-coll":
+            spec = LoopSpec()      # nothing is claimed about a loop over an uninterpreted table
         if spec is None:
             raise Untranslatable(f"for loop #{ordn} (line {n.lineno}) has no invariant")
         self.theory.for_loop(self, n, it, spec, ordn)
